@@ -13,6 +13,7 @@ import (
 	"encoding/hex"
 	"errors"
 	"fmt"
+	"go.uber.org/zap/zapio"
 	"io"
 	"log/slog"
 	"os"
@@ -597,6 +598,15 @@ var histOps = []histOp{
 		c1.Info("child one")
 		c2.Error("child two", zap.Error(errors.New("e")))
 		l.WithLazy(zap.Int("lz", 1)).Named("lz").Debug("lazy child")
+	}},
+	{"zapio-writer-at-panic-level:line-in-pieces,panic-recovered,written-to-again", func(h *histEnv) {
+		w := &zapio.Writer{Log: h.lg(), Level: zapcore.PanicLevel}
+		_, _ = w.Write([]byte("first half of a line, "))
+		quiet(func() { _, _ = w.Write([]byte("second half\nand a tail without its newline")) })
+		quiet(func() { _ = w.Sync() })
+		_, _ = w.Write([]byte("more bytes after the recovered panic, "))
+		quiet(func() { _, _ = w.Write([]byte("and the end of that line\n")) })
+		quiet(func() { _ = w.Close() })
 	}},
 	{"entries-with-given-callers", func(h *histEnv) {
 		// the same program-counter values as the probe uses, with other files and lines
